@@ -81,8 +81,12 @@ def operator_big_endian(qc):
 def check_conversion(n, gates, aps, env, acc, split=False):
     import signal
     from lightworks.qubit import qiskit_converter
-    prog = decorate(n, gates, env)
+    plain = split == "plain"          # the multi-qubit gates alone, without the single-qubit decoration
+    split = split is True
+    prog = list(gates) if plain else decorate(n, gates, env)
     case = {"n_qubits": n, "gates": gates, "allow_post_selection": aps, "seed": env.seed}
+    if plain:
+        case["plain"] = True
     if split:
         case["registers"] = [1, n - 1]
     qc = build_qc(n, prog, split)
@@ -182,6 +186,8 @@ def run(tier, seed):
             if any(g[0] == "swap" for g in gates):
                 for aps in (False, True):
                     jobs.append((3, gates, aps))
+            else:            # ... and without one, with post-selection allowed (the analyzer's flags over three gates)
+                jobs.append((3, gates, True))
 
     # the same circuits declared over two quantum registers (short sequences)
     split_jobs = []
@@ -191,7 +197,14 @@ def run(tier, seed):
             for gates in itertools.product(mg, repeat=d):
                 for aps in (False, True):
                     split_jobs.append((n, gates, aps, True))
-    jobs = [j + (False,) for j in jobs] + split_jobs
+    # undecorated sequences (the analyzer's per-instruction flags line up with the multi-qubit gates only here)
+    plain_jobs = []
+    for n, L in [(2, 3), (3, 3)]:
+        two = [g for g in multi_gates(n) if len(g) == 3 and g[0] != "swap"]
+        for d in range(1, L + 1):
+            for gates in itertools.product(two, repeat=d):
+                plain_jobs.append((n, gates, True, "plain"))
+    jobs = [j + (False,) for j in jobs] + split_jobs + plain_jobs
 
     def shard_fn(js):
         acc = kernel.Acc()
@@ -231,4 +244,4 @@ def replay(w, acc):
         check_unsupported(env, acc)
         return
     check_conversion(case["n_qubits"], tuple(_tup(g) for g in case["gates"]), case["allow_post_selection"], env, acc,
-                     split="registers" in case)
+                     split="plain" if case.get("plain") else "registers" in case)
